@@ -375,7 +375,7 @@ func init() {
 			}
 			fsx.ReplayWitness(c, mon, w)
 		},
-		Rule: "every request of the C01 exploration (361 trees x all single requests, plus random histories) with a directory snapshot before/after: status>=400 => names, kinds and file bytes unchanged; plus 486 conditional PUT/DELETE combinations, plus a PUT body-fault matrix (body reader failing after k bytes for every k of lengths {0,1,5,4097} (thorough: +70000 on 4 KiB boundaries +-1) x {absent, existing other content, existing same length} x {no header, If-Match current} x 2 error kinds), plus uploads aborted over real TCP. " +
+		Rule: "every request of the C01 exploration (385 trees x all single requests, plus random histories) with a directory snapshot before/after: status>=400 => names, kinds and file bytes unchanged; plus 486 conditional PUT/DELETE combinations, plus a PUT body-fault matrix (body reader failing after k bytes for every k of lengths {0,1,5,4097} (thorough: +70000 on 4 KiB boundaries +-1) x {absent, existing other content, existing same length} x {no header, If-Match current} x 2 error kinds), plus uploads aborted over real TCP. " +
 			"distinct_nontrivial counts distinct (method, abstract request/tree class, refusal status) and fault-matrix cells that ended >= 400.",
 		Assumptions: []string{
 			"a response that was never produced (connection gone) carries no obligation; 1xx/2xx/3xx responses carry none either",
